@@ -9,7 +9,7 @@ TNext == l <= Len(Tr) /\ l' = l + 1
 \* jump targets are given relative to the instruction
 Inst(e) == IF e.i.f = "jump" THEN [e.i EXCEPT !.s.v = e.at + e.i.s.v] ELSE e.i
 Why(e) == LET encs == Enc(Inst(e), e.at) IN
-          IF encs = {} THEN (IF e.acc THEN "accepted although the architecture has no encoding" ELSE "")
+          IF encs = {} THEN ""            \* e.g. a jump target out of range: rejection is C06's question
           ELSE IF ~e.acc THEN "rejected"
           ELSE IF e.b \in {BytesOf(w) : w \in encs} THEN "" ELSE "bytes are not an architecture encoding"
 Report ==
